@@ -367,7 +367,18 @@ pub fn check_create(c: &CreateCase) -> Outcome {
         let _ = catch(|| rdest::Metainfo::create_file(&path, &format!("{}/a/much/longer/announce/path", c.tracker)));
         o.class("torrent-file-existed-already");
     }
-    std::fs::write(&path, &data).unwrap();
+    if c.seed % 5 == 2 {
+        // the file is given through a symbolic link (a download directory full of links into a content store)
+        let _ = std::fs::remove_file(&path);
+        let store = cwd.join("store");
+        std::fs::create_dir_all(&store).unwrap();
+        let real = store.join("blob-with-another-name.bin");
+        std::fs::write(&real, &data).unwrap();
+        std::os::unix::fs::symlink(&real, &path).unwrap();
+        o.class("file-given-through-a-symlink");
+    } else {
+        std::fs::write(&path, &data).unwrap();
+    }
     match catch(|| rdest::Metainfo::create_file(&path, &c.tracker)) {
         Err(p) => {
             o.fail(panic_signature(&p), format!("create_file panicked: {}", p));
@@ -425,7 +436,7 @@ pub fn check_create(c: &CreateCase) -> Outcome {
 pub fn def() -> PropDef {
     PropDef {
         id: "C17",
-        rule: "sub totality: model torrents with 0-3 byte mutations, or arbitrary delimiter-rich bytes, fed to Metainfo::from_bencode: no panic, and on acceptance every accessor is called for every valid piece index (harness build has overflow checks on). Sub faithful: a model torrent (announce, name, piece length, k hashes, length xor files, extra keys everywhere, rotated key order, numeric fields from {0,1,small,2^31,2^32,2^40,2^53,2^62,i64::MAX} as well as sensible values, 0 hashes) written by the reference writer; on acceptance tracker_url, pieces_num, piece(i), total_length, ordered file list (paths and piece ranges) must equal the model and accessors must not panic; sensible documents must be accepted. Sub create: create_file on generated files (lengths around multiples of 256 KiB, up to 600 KiB) then from_file: name, length, ceil(len/256KiB) SHA-1s, announce. Non-trivial: totality = mutated or arbitrary; faithful = numeric field outside 1..2^31 or multi-file; create = length within 1 of a multiple of 262144. Distinct by hash of the case.",
+        rule: "sub totality: model torrents with 0-3 byte mutations, or arbitrary delimiter-rich bytes, fed to Metainfo::from_bencode: no panic, and on acceptance every accessor is called for every valid piece index (harness build has overflow checks on). Sub faithful: a model torrent (announce, name, piece length, k hashes, length xor files, extra keys everywhere, rotated key order, numeric fields from {0,1,small,2^31,2^32,2^40,2^53,2^62,i64::MAX} as well as sensible values, 0 hashes) written by the reference writer; on acceptance tracker_url, pieces_num, piece(i), total_length, ordered file list (paths and piece ranges) must equal the model and accessors must not panic; sensible documents must be accepted. Sub create: create_file on generated files (lengths around multiples of 256 KiB, up to 600 KiB; a fifth of them given through a symbolic link) then from_file: name, length, ceil(len/256KiB) SHA-1s, announce. Non-trivial: totality = mutated or arbitrary; faithful = numeric field outside 1..2^31 or multi-file; create = length within 1 of a multiple of 262144. Distinct by hash of the case.",
         assumptions: &[
             "`path` entries are byte strings (rdest's reader), entries of `files` are all well-formed in sub faithful",
             "numeric fields are non-negative in sub faithful (negative ones are rejected by rdest and appear only through mutations)",
@@ -461,7 +472,7 @@ pub fn def() -> PropDef {
                 cases: |t| t.pick(1_500, 30_000),
                 run: |ctx| run_proptest(ctx, "create", create_strategy(), check_create),
                 replay: |v| replay_case::<CreateCase>(v, check_create),
-                min_class: &[("length-within-1-of-multiple-of-256KiB", 0.2), ("more-than-one-piece", 0.15), ("torrent-file-existed-already", 0.15)],
+                min_class: &[("length-within-1-of-multiple-of-256KiB", 0.2), ("more-than-one-piece", 0.15), ("torrent-file-existed-already", 0.15), ("file-given-through-a-symlink", 0.08)],
             },
         ],
     }
